@@ -1,6 +1,7 @@
 import Smtb.Circuit.Trace
 import Smtb.Circuit.Main
 import Smtb.Circuit.TraceHarness
+import Smtb.Circuit.TraceHarness2
 /-! `driver trace …` : print the API-call trace of a gadget / circuit model -/
 namespace Driver
 open Smtb Smtb.Circuit
@@ -30,15 +31,9 @@ def traceProg (name : String) (a : List Nat) : Option (TraceM Unit) :=
   | "FromBinaryBigEndian", [n] => some (do let _ ← traceFromBinaryBigEndian n)
   | "Insertion", [p, d, b] => some (traceInsertion p d b)
   | "Deletion", [p, d, b] => some (traceDeletion p d b)
-  | "Poseidon1", [] => some do
-      let a ← input1
-      let r ← Poseidon.poseidon1 a; ret [r]
-  | "Poseidon2", [] => some do
-      let a ← input1; let b ← input1
-      let r ← Poseidon.poseidon2 a b; ret [r]
-  | "Keccak", [dom, n] => some do
-      let inp ← inputs n
-      let r ← Keccak.keccakGadget dom inp; ret r
+  | "Poseidon1", [] => some (do let _ ← tracePoseidon1)
+  | "Poseidon2", [] => some (do let _ ← tracePoseidon2)
+  | "Keccak", [dom, n] => some (do let _ ← traceKeccak dom n)
   | _, _ => none
 
 def traceCmd (args : List String) : IO UInt32 := do
